@@ -123,8 +123,9 @@ def _one(rc: RuleCtx, name: str):
         out = ev.eval_loop_body(fi, loop, benv)
     except Unsupported as e:
         raise AnalysisError(f"{fi.qualname}: loop body not modelled: {e}")
-    if out.continues or out.returns:
-        raise AnalysisError(f"{fi.qualname}: continue/return inside the pass - shape not recognised")
+    if out.returns:
+        raise AnalysisError(f"{fi.qualname}: return inside the pass - shape not recognised")
+    # (`continue` only ends one iteration early: the end state of the iteration is the merge of every way to finish it)
     appends = [e for e in out.events if e.kind == "append" and e.target == L]
     bulk = []
     if out.breaks:
